@@ -283,15 +283,17 @@ def run_nd(case):
 # ---------------------------------------------------------------------------------------------
 # slice 5: envelope of sample points
 # ---------------------------------------------------------------------------------------------
-PTS = [-1e12, -(2.0**31) - 1, -1.0, 0.0, 0.5, 5.0, 99.5, 100.0, 2.0**31, 1e12, math.nan, math.inf, -math.inf]
+PTS = [-1e300, -1e19, -(2.0**63), -1e12, -(2.0**31) - 1, -1.0, 0.0, 0.5, 5.0, 99.5, 100.0, 2.0**31, 1e12, 2.0**63, 1e19, 1e300,
+       math.nan, math.inf, -math.inf]
 
 
 def gen_pts():
     pts1 = [(x, y) for x in PTS for y in (0.0, 5.0, 99.5, -1.0, 2.0**31, math.nan, -math.inf)]
-    pts_small = [(x, y) for x in (-1e12, -1.0, 0.5, 5.0, 100.0, 2.0**31, math.nan) for y in (0.0, 5.0, 1e12)]
+    pts_small = [(x, y) for x in (-1e300, -(2.0**63), -1e12, -1.0, 0.5, 5.0, 100.0, 2.0**31, 2.0**63, 1e300, math.nan)
+                 for y in (0.0, 5.0, 1e12, -1e19)]
     for shape in ((100, 100), (1, 1), (7, 200)):
-        for padding in (0, 1, 2):
-            for align in (None, 4, 16):
+        for padding in (0, 1, 2, 1024):
+            for align in (None, 3, 4, 16):
                 for p in pts1:
                     yield (shape, padding, align, (p,))
                 for p, q in itertools.combinations(pts_small, 2):
@@ -315,7 +317,8 @@ def run_pts(case):
     xy = np.asarray(pts, dtype="float64").reshape(-1, 2)
     fin = [(x, y) for x, y in pts if math.isfinite(x) and math.isfinite(y)]
     big = any(abs(v) >= 2**31 - 64 for p in fin for v in p)
-    r = R(outcome=f"fin{len(fin)}:{'big' if big else 'small'}", nontrivial=len(fin) > 0)
+    huge = any(abs(v) >= 2.0**62 for p in fin for v in p)
+    r = R(outcome=f"fin{len(fin)}:{'huge' if huge else 'big' if big else 'small'}:pad{min(padding, 3)}:al{align}", nontrivial=len(fin) > 0)
     got = M.roi_from_points(xy, shape, padding=padding, align=align)
     if not fin:
         if got != (slice(0, 0), slice(0, 0)):
@@ -330,7 +333,7 @@ def run_pts(case):
             lo, hi = _adown(lo, align), _aup(hi, align)
         want.append(slice(min(max(lo, 0), n), min(max(hi, 0), n)))
     want = tuple(want)
-    cls = "beyond-int32" if big else "int32-range"
+    cls = "beyond-int64" if huge else "beyond-int32" if big else "int32-range"
     for s_, n in zip(got, (ny, nx)):
         if not (0 <= s_.start <= s_.stop <= n):
             r.fail(f"roi_from_points:outside-or-reversed:{cls}", f"{case} -> {got}")
